@@ -104,6 +104,35 @@ func Random(t *rapid.T, maxDigits, maxExp int, allowExp bool, label string) stri
 	return b.String()
 }
 
+// SameLength draws a numeral with the sign and the integer-part length of tok (an exponent-free
+// numeral) and fresh digits; the fraction is kept, dropped or redrawn.
+func SameLength(t *rapid.T, tok string, label string) string {
+	neg := strings.HasPrefix(tok, "-")
+	body := strings.TrimPrefix(tok, "-")
+	ip, fp := body, ""
+	if i := strings.IndexByte(body, '.'); i >= 0 {
+		ip, fp = body[:i], body[i+1:]
+	}
+	var b strings.Builder
+	if neg {
+		b.WriteByte('-')
+	}
+	if len(ip) == 1 {
+		b.WriteByte(byte('0' + rapid.IntRange(0, 9).Draw(t, label+"One")))
+	} else {
+		b.WriteString(digs(t, len(ip), true, label+"Int"))
+	}
+	switch rapid.IntRange(0, 2).Draw(t, label+"Frac") {
+	case 0:
+		if fp != "" {
+			b.WriteString("." + fp)
+		}
+	case 1:
+		b.WriteString("." + digs(t, rapid.IntRange(1, 6).Draw(t, label+"FracLen"), false, label+"FracD"))
+	}
+	return b.String()
+}
+
 func digs(t *rapid.T, n int, noLeadZero bool, label string) string {
 	var b strings.Builder
 	for i := 0; i < n; i++ {
